@@ -22,6 +22,9 @@ AnswerDevs(e) ==
                \cup IfDev(<<sp[5], sp[6], sp[7], sp[8]>> = <<Line(s), Col(s), Line(en), Col(en)>>, "lexer line_col", <<s, en>>)
                \cup IfDev(<<sp[9], sp[10]>> = m, "lexer span_lines_str", <<s, en, <<sp[9], sp[10]>>, m>>)
                \cup IfDev(<<sp[11], sp[12]>> = <<Line(s), Col(s)>>, "error pretty-printer position", <<s, en, <<sp[11], sp[12]>> >>)
+               \cup IfDev(<<sp[13], sp[14], sp[15], sp[16]>> = <<Line(s), Col(s), Line(en), Col(en)>>, "line_col of a lexer produced by lrlex (also after a lexing error)", <<s, en, <<sp[13], sp[14], sp[15], sp[16]>> >>)
+               \cup IfDev(<<sp[17], sp[18]>> = m, "span_lines_str of a lexer produced by lrlex", <<s, en, <<sp[17], sp[18]>>, m>>)
+               \cup IfDev(<<sp[19], sp[20]>> = <<Line(s), Col(s)>>, "diagnostics file:line:col", <<s, en, <<sp[19], sp[20]>> >>)
                : i \in 1 .. Len(e.spans) }
 
 Init == l = 1 /\ inst = "" /\ ndev = 0 /\ NLInit
